@@ -39,10 +39,10 @@ class C01(verif.Spec):
     open_statements = ["whole-library memory safety for all inputs (only the enumerated obligations are theorems)"]
 
     def gen_cases(self, rng, tier):
-        n = 60 if tier == "quick" else 1500
+        n = 90 if tier == "quick" else 2000
         cases = []
         for i in range(n):
-            kind = rng.choice(["ttx", "ttx", "ttx", "cc", "mixed", "noise"])
+            kind = rng.choice(["ttx", "ttx", "ttx", "cc", "cc", "mixed", "noise"])
             ops = []
             net = decgen.Net(rng)
             t = 0
@@ -76,7 +76,8 @@ class C01(verif.Spec):
                 pairs = []
                 for _ in range(rng.randrange(2, 12)):
                     k = rng.random()
-                    if k < 0.5: pairs += decgen.cc_stream(rng, rng.randrange(5, 80))
+                    if k < 0.25: pairs += decgen.cc_stream(rng, rng.randrange(5, 80))
+                    elif k < 0.55: pairs += decgen.cc_script(rng, rng.randrange(1, 6))
                     elif k < 0.8: pairs += decgen.xds_packet(rng)
                     else: pairs += decgen.itv_text(rng)
                 lines = [(T.SL_CC525, 21 if f == 1 else 284, [a, b]) for f, a, b in pairs]
@@ -126,7 +127,7 @@ class C01(verif.Spec):
         exe, err = verif.build_harness("dec_harness", flags=flags, tag="bounds")
         if exe is None:
             return [("bounds build failed: " + err[-300:], [])]
-        cases = ctx["cases"][: (40 if ctx["tier"] == "quick" else 400)]
+        cases = ctx["cases"][: (400 if ctx["tier"] == "quick" else 4000)]
         text = verif.flatten(cases)
         try:
             p = subprocess.run([exe], input=text.encode(), stdout=subprocess.PIPE, stderr=subprocess.PIPE, timeout=600)
